@@ -60,9 +60,10 @@ PROPS = {
                  covers=["delete-error", "delete-unknown-applied", "compactor-dies", "get-present", "get-absent", "done"]),
             dict(run=B + "VerifC07Borders", quick=dict(maxskip=2, keylen=4), thorough=dict(maxskip=2, keylen=6), covers=["with-skipped", "done"]),
             dict(run=B + "VerifC07Race", quick=dict(preempt=1), thorough=dict(preempt=2), covers=["racing-write-succeeded", "get-present", "get-absent", "done"], stress=20),
+            dict(run=B + "VerifC07Interleave", quick=dict(points=8), thorough=dict(points=12), covers=["write-inside-compaction", "write-after-compaction", "interleaved-write-succeeded", "done"]),
         ],
-        bounds=dict(quick="histories of 2 writes on 1 key (multi-version, tombstones, re-created), compaction at every revision R in (base, current], one fault (error / unknown-applied / compactor dies) at any compaction delete, reads at every R' >= R and latest, one further write; compaction racing one symbolic write (create / update / delete) on a key with a tombstone, two live versions or a re-created key, interleaved at the store operations, revision dealing and request boundaries with <= 1 scheduling delay; compaction ranges for prefix /r with 0..2 skipped prefixes of symbolic bytes (conditions of KubeBrainOption.Validate assumed) against a symbolic raw key of 2..5 bytes",
-                    thorough="histories of 3 writes, up to 2 faults; the race with <= 2 scheduling delays"),
+        bounds=dict(quick="histories of 2 writes on 1 key (multi-version, tombstones, re-created), compaction at every revision R in (base, current], one fault (error / unknown-applied / compactor dies) at any compaction delete, reads at every R' >= R and latest, one further write; compaction racing one symbolic write (create / update / delete) on a key with a tombstone, two live versions or a re-created key, interleaved at the store operations, revision dealing and request boundaries with <= 1 scheduling delay; compaction ranges for prefix /r with 0..2 skipped prefixes of symbolic bytes (conditions of KubeBrainOption.Validate assumed) against a symbolic raw key of 2..5 bytes; a whole write (any kind, symbolic expectation) placed before any of the first 8 store operations of the compaction or after it (3 key histories)",
+                    thorough="histories of 3 writes, up to 2 faults; the race with <= 2 scheduling delays; 12 positions for the whole write"),
         outside="time-based expiry (C17); more than one concurrent writer during the scan; more than 2 skipped prefixes or skipped prefixes longer than <prefix>+3 bytes",
     ),
     "C08": dict(
